@@ -34,6 +34,7 @@ type Query {
   relay(n: Int!): String
   pick(i: Int!): Thing
   join(words: [String]): String
+  span(r: Range): String
 }
 type Mutation {
   rename(old: String!, new: String!): Keeper
@@ -78,6 +79,13 @@ type Cell {
 enum Size {
   BIG
   SMALL
+}
+input Range {
+  lo: Int = 0
+  hi: Int = 9
+  tags: [String] = ["x", "y"]
+  inner: Range = {lo: 5, tags: []}
+  parts: [Range] = [{hi: 1}, {}]
 }
 input Filter {
   minAge: Int = 0
@@ -439,6 +447,22 @@ func (q *Query) Join(words []string) (string, error) {
 	return strings.Join(words, "+"), nil
 }
 
+// Span is the reflection method behind Query.span: it answers with exactly the
+// argument it received (input-object defaults filled in by the library).
+func (q *Query) Span(r map[string]interface{}) (string, error) {
+	if _, err := q.tr.enter("Query", "span", nil, ""); err != nil {
+		return "", err
+	}
+	return span(r), nil
+}
+
+func span(r interface{}) string {
+	if m, _ := r.(map[string]interface{}); m != nil {
+		return CanonLite(m)
+	}
+	return "none"
+}
+
 // Pick is the reflection method behind Query.pick.
 func (q *Query) Pick(i int64) (interface{}, error) {
 	if _, err := q.tr.enter("Query", "pick", map[string]interface{}{"i": i}, ""); err != nil {
@@ -647,6 +671,8 @@ func zooField(q *Query, obj interface{}, name string, args map[string]interface{
 			return relay(o, toInt64(args["n"])), nil
 		case "pick":
 			return pick(o, toInt64(args["i"])), nil
+		case "span":
+			return span(args["r"]), nil
 		case "join":
 			l, _ := args["words"].([]interface{})
 			out := ""
